@@ -50,6 +50,29 @@ pub struct PromptSession<'a> {
     pub to: usize,
 }
 
+/// The run was ended at the prompt of this (last) instruction, before it executed: the last thing
+/// read there was a quit command, the end of input or a read error, and neither the printer nor a
+/// service did anything afterwards. How the emulator then leaves - `process::exit` or a return
+/// from the run loop - is its own business.
+pub fn stopped_at_prompt(s: &Seg, sessions: &[PromptSession]) -> bool {
+    if s.followed {
+        return false;
+    }
+    let last = match sessions.last() {
+        Some(l) => l,
+        None => return false,
+    };
+    let ended = match last.lines.last() {
+        Some(LineRes::Eof) | Some(LineRes::Err(_)) => true,
+        Some(LineRes::Ok(t)) => matches!(classify_prompt_line(t), PromptCmd::Quit),
+        None => false,
+    };
+    ended
+        && !s.events[last.to.min(s.events.len())..].iter().any(|e| {
+            matches!(e, Event::Rec { origin: Origin::Printer, .. } | Event::Rec { origin: Origin::Service, .. } | Event::Line { who: Who::Service, .. })
+        })
+}
+
 /// Prompt sessions inside one segment: maximal runs of prompt/printer/raw events that contain
 /// at least one prompt-level read; two sessions are always separated by a run-loop record.
 pub fn prompt_sessions<'a>(events: &'a [Event]) -> Vec<PromptSession<'a>> {
@@ -718,7 +741,7 @@ pub fn check_c17(case: &Case, h: &History, alts: &[History]) -> Vec<Violation> {
                             out = report;
                         }
                         // a statement whose run ended at the prompt before it (quit / EOF) has no output
-                        if s.followed || matches!(h.ended(), Some(Event::Return)) {
+                        if s.followed || (matches!(h.ended(), Some(Event::Return)) && !stopped_at_prompt(s, &sessions)) {
                             v.extend(check_print_output(&cmd, &out, &s.regs, &mt.mem, "program"));
                         }
                     }
@@ -874,6 +897,9 @@ pub fn check_c18(_case: &Case, h: &History) -> Vec<Violation> {
         if ended_here && !evs.iter().any(|e| matches!(e, Event::Rec { .. } | Event::Line { .. }))
             && matches!(end, Some(Event::Exit(_)) | None | Some(Event::Fuel))
         {
+            continue;
+        }
+        if stopped_at_prompt(s, &sessions) {
             continue;
         }
         if let Some(Event::Panic { msg, file, line }) = end {
@@ -1290,7 +1316,7 @@ pub fn check_c20(case: &Case, h: &History, alts: &[History]) -> Vec<Violation> {
         let sessions = prompt_sessions(s.events);
         let step = stepping_active(&case.scn, &s.regs) && n_code.map(|n| s.idx < n).unwrap_or(true);
         let expected = step as usize + is_int3(s.code) as usize;
-        let completed = s.followed || matches!(h.ended(), Some(Event::Return));
+        let completed = s.followed || (matches!(h.ended(), Some(Event::Return)) && !stopped_at_prompt(s, &sessions));
         let kind = gen.map(|g| instr_kind(g, s.idx)).unwrap_or_default();
         if completed && n_code.is_some() && sessions.len() != expected {
             v.push(Violation::new(
